@@ -379,13 +379,14 @@ pub fn t4() -> BoxedStrategy<Value> {
     (
         0u8..48,
         (0u8..6, 0usize..7, 0u8..3, any::<bool>(), any::<bool>()),
-        (0u8..5, 0u8..4, 0usize..6, any::<bool>()),
+        (0u8..5, 0u8..4, 0usize..6, any::<bool>(), any::<bool>()),
     )
-        .prop_map(|(align, (j, csite_i, place, via_snapshot, with_y), (k, wait, usite_i, restamp))| {
+        .prop_map(|(align, (j, csite_i, place, via_snapshot, with_y), (k, wait, usite_i, restamp, prestamp))| {
             const CSITES: [u32; 7] = [0, site::CASC_CAS, site::CASC_STATE, site::CASC_MARK_CAS, site::CASC_LOAD, site::TD_CAS, site::CASC_WEAKED];
             const USITES: [u32; 6] = [0, site::INC_S_1, site::INC_S_2, site::IND_LOAD, site::IND_CAS, site::DEC_S_CAS];
             let (a, u, c) = (0usize, 1usize, 2usize);
             let mut t = TB::new(3);
+            t.prestamp = prestamp;
             if with_y {
                 t.new_node(a, "Y", None, None, 3, 50);
                 t.new_node(a, "X", Some("Y"), None, 3, 0);
@@ -993,6 +994,7 @@ pub fn t10() -> BoxedStrategy<Value> {
         .prop_map(|(align, (half, s1, s2, s3, s4), (p1, p2, p3, p4, reader_upgrades, settle))| {
             let (d, m, p) = (0usize, 1usize, 2usize);
             let mut t = TB::new(3);
+            t.prestamp = settle % 2 == 1;
             t.new_node(d, "B", None, None, 3, 63);
             t.downgrade(d, "B", "wB");
             t.new_chain(d, "C", half);
